@@ -22,10 +22,11 @@ func TestC02Live(t *testing.T) {
 			EveryMs:   rapid.SampledFrom([]int{100, 300, 500}).Draw(rt, "every_ms"),
 			Keep:      rapid.SampledFrom([]string{"GET_PARAMETER", "OPTIONS"}).Draw(rt, "keepalive"),
 			PreludeMs:    rapid.SampledFrom([]int{0, 0, 2500}).Draw(rt, "prelude_ms"),
-			FirstDelayMs: rapid.SampledFrom([]int{0, 0, 1300}).Draw(rt, "first_delay_ms"),
+			FirstDelayMs: rapid.SampledFrom([]int{0, 0, 700}).Draw(rt, "first_delay_ms"),
 		}
 		if rapid.IntRange(0, 3).Draw(rt, "slow_udp_publisher") == 0 {
-			c.Transport, c.Mode, c.Media, c.PreludeMs, c.FirstDelayMs = "udp", "record", true, 2500, 1300
+			// (timeouts of 3 s: the first packet comes 1.3 s after RECORD, later than one check period and below timeout - 1 s)
+			c.Transport, c.Mode, c.Media, c.PreludeMs, c.FirstDelayMs, c.TimeoutMs = "udp", "record", true, 3500, 1300, 3000
 		}
 		st, err := pbt.Safe(runLive, c)
 		if st == nil {
